@@ -94,8 +94,27 @@ pub fn generate(rng: &mut Rng, thorough: bool) -> Vec<String> {
     let zones = super::c03::zone_ids();
     let per = if thorough { 1 } else { 5 };
     let pick0 = (rng.next() % per as u64) as usize;
+    let mut seen_footers: std::collections::HashSet<String> = std::collections::HashSet::new();
     for (k, name) in zones.iter().enumerate() {
         let Some(z) = read_tzif(name) else { continue };
+        // every distinct rule footer (a few dozen among all zones), on its first zone: the rule's date depends on the
+        // year only through its leap-ness and the weekday of January 1st - the 28 years 2038..2065 realise all fourteen
+        // combinations - so each day of the rule's months in each of these years is probed (at noon and at midnight UTC)
+        if z.footer.contains(",M") && seen_footers.insert(z.footer.clone()) {
+            let months: Vec<i64> = z.footer.split(",M").skip(1).filter_map(|r| r.split('.').next()?.parse().ok()).collect();
+            for y in 2038i64..=2065 {
+                for m in &months {
+                    let first = temporal_rs::verif_hooks::epoch_days_from_gregorian_date(y as i32, *m as u8, 1) as i64;
+                    // (the day before the month and the first days of the next one too)
+                    for d in -1..=33i64 {
+                        v.push(format!("tzdb_off {name} {}", (first + d) * 86400 + 43200));
+                        if thorough || (d + y) % 3 == 0 {
+                            v.push(format!("tzdb_off {name} {}", (first + d) * 86400));
+                        }
+                    }
+                }
+            }
+        }
         let important = ["America/New_York", "Europe/London", "Australia/Lord_Howe", "Pacific/Apia", "Africa/Monrovia", "Asia/Dubai", "America/Sao_Paulo", "Europe/Dublin", "Africa/Casablanca", "Asia/Tehran", "UTC", "Antarctica/Troll", "America/Godthab", "Asia/Gaza"];
         if k % per != pick0 && !important.contains(&name.as_str()) {
             continue;
